@@ -30,7 +30,7 @@ func checkC03(c *Ctx) {
 			got := ot.Cells[k]
 			ok := false
 			for _, w := range ref.Cells[k] {
-				if w == got {
+				if canonTable(w) == got {
 					ok = true
 				}
 			}
